@@ -56,6 +56,10 @@ fn main() {
         i += 2;
     }
     guard::install_panic_hook();
+    if ctx.prop != "C14" {
+        // C14 installs its own (global, multi-threaded) observer
+        guard::install_lock_discipline();
+    }
     guard::heartbeat_init(&format!("{}.hb", ctx.out));
     if cpu_budget > 0.0 {
         guard::start_watchdog(cpu_budget, format!("{}.hang", ctx.out));
